@@ -27,6 +27,14 @@ class _Continue(Exception):
     pass
 
 
+class _End(object):
+    def __repr__(self):
+        return 'END'
+
+
+END = _End()
+
+
 class YieldEvent(object):
     __slots__ = ('value',)
 
@@ -401,6 +409,12 @@ class Interp(object):
     def unopt(self, v, what='operand'):
         """Use an optional value where a proper value is needed (None -> TypeError path)."""
         if isinstance(v, SOpt):
+            if self.term_mode:
+                if is_sym(v.isnone) and self.st.feasible(v.isnone):
+                    raise Unsupported('possibly-None value inside a pointwise term')
+                if v.isnone is True:
+                    raise SymRaise('TypeError', 'NoneType used as ' + what)
+                return v.val
             if self.decide(v.isnone):
                 raise SymRaise('TypeError', 'NoneType used as ' + what)
             return v.val
@@ -496,9 +510,8 @@ class Interp(object):
         it = yield from self.ev(node.iter, env)
         loop = self.iterate(it)
         while True:
-            try:
-                item = yield from self.next_item(loop)
-            except StopIteration:
+            item = yield from self.next_item(loop)
+            if item is END:
                 break
             yield from self.assign(node.target, item, env)
             try:
@@ -525,7 +538,8 @@ class Interp(object):
             f = self.find_method(it.cls, '__iter__')
             if f is None:
                 raise SymRaise('TypeError', 'object is not iterable')
-            return ('call', f, it)
+            g = run_to_completion(self.call_function(f, [it], {}))
+            return self.iterate(g)
         if isinstance(it, SArr):
             n = it.shape[0]
             if is_sym(n):
@@ -536,26 +550,28 @@ class Interp(object):
         raise SymRaise('TypeError', 'object is not iterable: %r' % (it,))
 
     def next_item(self, loop):
-        """Generator: returns the next item or raises StopIteration (as a normal exception)."""
+        """Generator: returns the next item, or END when the iterator is exhausted."""
         if isinstance(loop, tuple) and loop[0] == 'call':
+            f, obj = loop[1], loop[2]
             raise Unsupported('internal: unresolved iterator')
         if isinstance(loop, SGen):
             if loop.done:
-                raise StopIteration()
+                return END
             try:
-                while True:
-                    ev = next(loop.pygen)
-                    if isinstance(ev, YieldEvent):
-                        return ev.value
-                    # an event that is not ours: cannot happen (nested generators are driven here too)
-                    raise Unsupported('unexpected event from generator')
+                ev = next(loop.pygen)
             except StopIteration:
                 loop.done = True
-                raise
+                return END
             except _Return:
                 loop.done = True
-                raise StopIteration()
-        return next(loop)
+                return END
+            if isinstance(ev, YieldEvent):
+                return ev.value
+            raise Unsupported('unexpected event from generator')
+        try:
+            return next(loop)
+        except StopIteration:
+            return END
         yield  # pragma: no cover (makes this a generator)
 
     # assignment ------------------------------------------------------------------
@@ -585,9 +601,8 @@ class Interp(object):
         loop = self.iterate(v)
         out = []
         while True:
-            try:
-                x = yield from self.next_item(loop)
-            except StopIteration:
+            x = yield from self.next_item(loop)
+            if x is END:
                 break
             out.append(x)
         if len(out) != n:
@@ -738,8 +753,10 @@ class Interp(object):
     def hashable(self, k):
         if isinstance(k, list):
             raise SymRaise('TypeError', 'unhashable list')
-        if is_sym(k):
+        if is_sym(k) or (isinstance(k, tuple) and any(is_sym(x) for x in k)):
             raise Unsupported('symbolic dictionary key')
+        if isinstance(k, (SArr, dict)):
+            raise SymRaise('TypeError', 'unhashable key')
         return k
 
     def ev_key(self, node, env):
@@ -911,9 +928,8 @@ class Interp(object):
             it = yield from self.ev(g.iter, e)
             loop = self.iterate(it)
             while True:
-                try:
-                    item = yield from self.next_item(loop)
-                except StopIteration:
+                item = yield from self.next_item(loop)
+                if item is END:
                     break
                 yield from self.assign(g.target, item, e)
                 ok = True
@@ -1687,6 +1703,12 @@ class Interp(object):
             if hasattr(r, '__next__') and hasattr(r, 'send'):
                 r = yield from r
             return r
+        if isinstance(fn, SUFun):
+            (x,) = args
+            x = self.unopt(x, 'argument')
+            if not isinstance(x, SRef):
+                raise Unsupported('uninterpreted function applied to %r' % (x,))
+            return SRef((fn.name, x.key))
         if isinstance(fn, SPoly):
             from .models import poly_call
             return poly_call(self, fn, args)
@@ -1790,6 +1812,13 @@ class Interp(object):
             return
         finally:
             self.depth -= 1
+
+
+class SUFun(object):
+    """Uninterpreted user callable on opaque objects (argument of PairTable.apply)."""
+
+    def __init__(self, name):
+        self.name = name
 
 
 class SSymRange(object):
